@@ -156,6 +156,15 @@ def m_new(s, av):
     n = s.concretize(av[0], 'allocation size')
     if n > (1 << 31): raise BoundExceeded('allocation of %d bytes' % n)
     site = s.frames[-1].code.name if s.frames else None
+    if s.B.get('alloc_reuse'):
+        # allocator that hands freed blocks out again (LIFO per size, like the fast bins of a real malloc): a later object can
+        # have the address of a dead one.  The free lists are immutable tuples in s.extra, so snapshots need no extra care.
+        fl = s.extra.get(('fl', max(n, 1)))
+        if fl:
+            a = fl[-1]; s.extra[('fl', max(n, 1))] = fl[:-1]
+            i = s.find_alloc(a); inf = s.ainfo[i]
+            inf[1] = True; inf[3] = site; s.trail.append(('live', a, False)); s.stats['allocs'] += 1; s.stats['reused_blocks'] += 1
+            return a
     a = s.alloc(max(n, 1), 'heap', site)
     s.stats['allocs'] += 1
     return a
@@ -170,6 +179,8 @@ def m_delete(s, av):
     inf = s.ainfo[i]
     if not inf[1]: raise Violation('memory', 'double free of %#x' % a)
     inf[1] = False; s.trail.append(('live', a, True)); s.stats['frees'] += 1
+    if s.B.get('alloc_reuse') and type(inf[0]) is int:
+        k = ('fl', inf[0]); s.extra[k] = s.extra.get(k, ()) + (a,)
     return None
 
 # ---------------------------------------------------------------- libc byte functions
